@@ -237,6 +237,27 @@ func TestVerifC12V1(t *testing.T) {
 		}
 		cs.Add(id, kind, nontrivial, term, descr)
 	}
+	// F94: GasWanted near the top of int64 reaped under finite gas limits. Gated (see
+	// vg.C12F94Enabled) until the repair is in the tree under test.
+	if vg.C12F94Enabled() {
+		nGas := vg.Scale(40, 2000)
+		for k := 0; k < vg.C12F94NDirected+nGas; k++ {
+			id := cs.NextID()
+			if !cs.Want(id) {
+				continue
+			}
+			directed := -1
+			if k < vg.C12F94NDirected {
+				directed = k
+			}
+			term, descr, kind, nontrivial, ok := vg.C12F94History(root.Fork(uint64(2000000+k)), true, directed, c12New, events)
+			if !ok {
+				cs.Count("skipped-equal-arrival-stamps", 1)
+				continue
+			}
+			cs.Add(id, kind, nontrivial, term, descr)
+		}
+	}
 	for k, n := range events {
 		cs.Notes = append(cs.Notes, fmt.Sprintf("%s=%d", k, n))
 	}
